@@ -165,6 +165,10 @@ class Address:
                     self.addrType = Address.remoteStationAddr
                     self.addrNet = net_addr
 
+                elif global_broadcast:
+                    # "*:" is only meaningful in front of "*"
+                    raise ValueError("unrecognized format")
+
                 if local_addr:
                     if _debug: Address._debug("    - simple address")
                     if local_addr.startswith("0x"):
